@@ -26,6 +26,7 @@ RULE = (
     "; code patches that carry aligned data ('jmp over; .align; .long; label'); a committed witness of a block shared by two functions"
 )
 ASSUMPTIONS = [
+    "a block that a recorded whole-block delete() targeted may stay behind zero-sized: remove_block judges the documented conditions (symbols, CFI, incoming control flow, entry point) on the state at that moment - e.g. the return edge of a self-call that disappears with the block's own out-edges a moment later",
     "after a failed apply() only closure and serializability are demanded (the property's words); block geometry, addresses and zero-sized blocks are judged only when apply() returns",
     "zero-sized blocks: only original blocks whose every byte the request set deleted may remain zero-sized (the documented cases of doc/Deletion.md are all of that form), and a block a patch brought that is the target of a branch or call while no code follows it in its byte interval (the patch's own label at the end of the section: the same 'incoming edges, nowhere to redirect them' case, for a new block)",
     "the aux-data tables validated are the sanctioned ones the canonical dump covers: alignment, comments, padding, symbolicExpressionSizes, cfiDirectives, functionBlocks/Entries/Names, encodings, types, profile, SCCs, peSafeExceptionHandlers, elfDynamicInit/Fini, elfSymbolInfo, plus module.entry_point",
@@ -45,6 +46,14 @@ def emptied_blocks(o):
         mine = [e for e in (o["edits"] or []) if e["block"] == b["id"]]
         if mine and sum(e["del"] for e in mine) == b["size"] and not any(e["ins"] for e in mine):
             out.append(b["id"])
+    # ... and blocks created during the batch (the rest of a block behind an earlier request) that a later request of
+    # the batch deleted whole: remove_block decides on the state at that moment whether the block can go
+    for r in o["rec"].records:
+        d = r["do"]
+        if d["kind"] == "delete" and "after" in r:
+            blk = next((b for b in r["before"]["blocks"] if b["id"] == d["block"]), None)
+            if blk is not None and d["offset"] == 0 and d["length"] == blk["size"] and blk["size"]:
+                out.append(d["block"])
     return out
 
 
